@@ -1,5 +1,327 @@
-import StraxModel.Model.Basic
+import StraxModel.Lemmas.Kill
+import StraxModel.Lemmas.PostOffice
+/-
+  C06 — failures reach the caller and never hang the pipeline.
+
+  Three levels.
+  * Mailbox level (this section): the kill protocol of ONE `strax.Mailbox`, for every configuration and every
+    reachable state of the transition system of Model/Mailbox.lean (flags, explicit notifications), i.e. for every
+    schedule: `kill_wakes_all`, `killed_reader_raises`, `force_killed_sender_raises`, `send_rechecks_after_wait`.
+    These are what makes the guard semantics of Model/Net.lean sound for kills.
+  * PostOffice level: the single-thread bus + `SingleThreadProcessor.iter` for ALL producer scripts.
+  * Net level: `ThreadedMailboxProcessor` as a net (Model/Net.lean).
+-/
 namespace Strax.C06
-open Strax
+open Strax Strax.Mailbox
+
+/-! ## mailbox level -/
+
+/-- in every reachable state of a killed mailbox nobody sleeps on a condition without having been notified -/
+theorem killed_no_blocked_waiter (c : Config) (s : Sys) (h : Reachable c s) (hk : s.mb.killed = true) :
+    (∀ (i : Nat) (sub : Sub), s.mb.subs[i]? = some sub → sub.flag ≠ some false) ∧
+    s.mb.writeFlag ≠ some false ∧ s.mb.fetchFlag ≠ some false :=
+  Kill.no_blocked_of_killed (Inv.reachable h).mb hk
+
+/-- `kill(upstream)` in any reachable state: the mailbox is killed (force-killed if `upstream`), and every waiter of
+the three conditions has been notified — readers (`_read_condition`), the sender waiting for room
+(`_write_condition`) and the lazy sender waiting for demand (`_fetch_new_condition`).  Also for a second kill,
+which notifies nobody: then nobody was blocked. -/
+theorem kill_wakes_all (c : Config) (s : Sys) (h : Reachable c s) (up : Bool) :
+    (s.mb.kill up).killed = true ∧ (up = true → (s.mb.kill up).forceKilled = true) ∧
+    (∀ (i : Nat) (sub : Sub), (s.mb.kill up).subs[i]? = some sub → sub.flag ≠ some false) ∧
+    (s.mb.kill up).writeFlag ≠ some false ∧ (s.mb.kill up).fetchFlag ≠ some false := by
+  have hk := kill_killed s.mb up
+  have hinv := (Inv.reachable h).mb.kill up
+  refine ⟨hk, ?_, Kill.no_blocked_of_killed hinv hk⟩
+  intro hu; subst hu
+  simp only [MB.kill]
+  by_cases hkk : s.mb.killed = true <;> simp [hkk, MB.notifyFetch, MB.notifyWrite, MB.notifyRead]
+
+/-- the killer thread's step is exactly that -/
+theorem kill_step_wakes_all (c : Config) (s s' : Sys) (h : Reachable c s) (k : Nat) (hs : step s (.killer k) = some s') :
+    s'.mb.killed = true ∧ (∀ (i : Nat) (sub : Sub), s'.mb.subs[i]? = some sub → sub.flag ≠ some false) ∧
+    s'.mb.writeFlag ≠ some false ∧ s'.mb.fetchFlag ≠ some false := by
+  have h' : Reachable c s' := Reachable.step h hs
+  have hk : s'.mb.killed = true := by
+    simp only [Mailbox.step, stepKiller] at hs
+    split at hs
+    · simp only [Option.some.injEq] at hs; subst hs; exact kill_killed _ _
+    · simp at hs
+  exact ⟨hk, killed_no_blocked_waiter c s' h' hk⟩
+
+/-- a reader that enters or resumes its critical section on a killed mailbox raises `MailboxKilled`: it is
+enabled (not blocked), it takes nothing more, and the messages it already handed over are untouched -/
+theorem killed_reader_raises (c : Config) (s : Sys) (h : Reachable c s) (hk : s.mb.killed = true)
+    (i : Nat) (r : Reader) (hr : s.readers[i]? = some r) (hpc : r.pc = .read) :
+    ∃ s', step s (.reader i) = some s' ∧ s'.readers[i]? = some { r with pc := .dead .mailboxKilled } ∧
+      s'.mb.heap = s.mb.heap ∧ s'.sent = s.sent := by
+  have hinv := Inv.reachable h
+  have hlen := hinv.rd.len
+  have hi : i < s.readers.length := (List.getElem?_eq_some_iff.mp hr).1
+  have hsub : ∃ sub, s.mb.subs[i]? = some sub := ⟨s.mb.subs[i]'(by omega), List.getElem?_eq_getElem (by omega)⟩
+  obtain ⟨sub, hsub⟩ := hsub
+  have hnb := (killed_no_blocked_waiter c s h hk).1 i sub hsub
+  simp only [Mailbox.step, stepReader, hr, hpc, MB.readStep, hsub]
+  cases hf : sub.flag with
+  | none =>
+    simp [hk, MB.readKilled, hi]
+  | some b =>
+    cases b with
+    | false => exact absurd hf hnb
+    | true => simp [hk, MB.readKilled, hi]
+
+/-- a sender that calls or resumes `send` on a force-killed mailbox raises `MailboxKilled` and pushes nothing;
+in `_send_from` that becomes `kill_from_exception` (pc `exc`), in the final `close()` it ends the thread -/
+theorem force_killed_sender_raises (c : Config) (s : Sys) (h : Reachable c s) (hfk : s.mb.forceKilled = true) :
+    (∀ num m, s.spc = .send num m →
+      ∃ s', step s .sender = some s' ∧ s'.spc = .exc .mailboxKilled ∧ s'.sent = s.sent ∧ s'.mb.heap = s.mb.heap) ∧
+    (s.spc = .close →
+      ∃ s', step s .sender = some s' ∧ s'.spc = .dead .mailboxKilled ∧ s'.sent = s.sent ∧ s'.mb.heap = s.mb.heap) := by
+  have hinv := Inv.reachable h
+  have hk : s.mb.killed = true := hinv.mb.fk hfk
+  have hnw := (killed_no_blocked_waiter c s h hk).2.1
+  have hcw := Kill.canWrite_of_killed hk
+  have hcd := Kill.ClosedDone.reachable h
+  have key0 : ∀ n m, s.spc ≠ .done → ∃ mb', s.mb.sendCore n m = some (.raised .mailboxKilled, mb') ∧ mb'.heap = s.mb.heap := by
+    intro n m hnd
+    have hcl : s.mb.closed = false := by
+      cases hc : s.mb.closed with
+      | false => rfl
+      | true => exact absurd (hcd hc) hnd
+    simp only [MB.sendCore]
+    cases hw : s.mb.writeFlag with
+    | none => simp [hcl, hfk]
+    | some b =>
+      cases b with
+      | false => exact absurd hw hnw
+      | true => simp [hcw, hk, hfk]
+  have key : ∀ num m, s.spc ≠ .done →
+      ∃ mb', s.mb.sendStep num m = some (.raised .mailboxKilled, mb') ∧ mb'.heap = s.mb.heap := by
+    intro num m hnd; unfold MB.sendStep; exact key0 _ m hnd
+  constructor
+  · intro num m hpc
+    obtain ⟨mb', hsc, hh⟩ := key num m (by rw [hpc]; simp)
+    refine ⟨{ s with mb := mb', spc := .exc .mailboxKilled }, ?_, rfl, rfl, hh⟩
+    simp only [Mailbox.step, stepSender, hpc, hsc]
+  · intro hpc
+    obtain ⟨mb', hsc, hh⟩ := key none .stop (by rw [hpc]; simp)
+    refine ⟨{ s with mb := mb', spc := .dead .mailboxKilled }, ?_, rfl, rfl, hh⟩
+    simp only [Mailbox.step, stepSender, hpc, hsc]
+
+/-- `send` re-checks the kill flags after it has waited for room: a sender woken from `_write_condition`
+(flag `some true`) on a mailbox that was killed meanwhile does NOT push its message — it raises `MailboxKilled`
+if the kill was `upstream`, otherwise the message is dropped.  Holds for every mailbox state. -/
+theorem send_rechecks_after_wait (mb mb' : MB) (n : Nat) (m : Msg) (out : SendOut)
+    (hw : mb.writeFlag = some true) (hk : mb.killed = true) (hs : mb.sendCore n m = some (out, mb')) :
+    (out = if mb.forceKilled then .raised .mailboxKilled else .dropped) ∧
+    mb'.heap = mb.heap ∧ mb'.nSent = mb.nSent ∧ mb'.writeFlag = none := by
+  simp only [MB.sendCore, hw, Kill.canWrite_of_killed hk, hk] at hs
+  cases hf : mb.forceKilled <;> simp [hf] at hs <;> obtain ⟨rfl, rfl⟩ := hs <;> simp
+
+/-- the same for the sender thread of a reachable system: after the wake-up nothing is added to the log of
+pushed messages -/
+theorem woken_sender_does_not_push (s s' : Sys) (hk : s.mb.killed = true)
+    (n : Nat) (m : Msg) (hpc : s.spc = .send (some n) m) (hw : s.mb.writeFlag = some true)
+    (hs : step s .sender = some s') : s'.sent = s.sent ∧ s'.mb.heap = s.mb.heap := by
+  simp only [Mailbox.step, stepSender, hpc] at hs
+  cases hsc : s.mb.sendStep (some n) m with
+  | none => simp [hsc] at hs
+  | some r =>
+    obtain ⟨out, mb'⟩ := r
+    have hsc' : s.mb.sendCore n m = some (out, mb') := by
+      unfold MB.sendStep at hsc; exact hsc
+    obtain ⟨ho, hh, _, _⟩ := send_rechecks_after_wait s.mb mb' n m out hw hk hsc'
+    simp only [hsc] at hs
+    cases hf : s.mb.forceKilled <;> simp [hf] at ho <;> subst ho <;>
+      (simp only [Option.some.injEq] at hs; subst hs; exact ⟨rfl, hh⟩)
+
+/-! ### non-vacuity of the mailbox-level statements -/
+
+/-- eager, capacity 1, one subscriber, two messages, one killer calling `kill(upstream=True)` -/
+def exKill : Config :=
+  { cap := some 1, lazy := false, gateRule := .hasMsg, drive := [true],
+    prog := [.item none (.plain 10), .item none (.plain 20)], workers := [], killers := [true] }
+
+/-- the sender is blocked on the full mailbox (flag `some false`) … -/
+example : (run? (init exKill) [.sender, .sender, .sender, .sender]).map (fun s => (s.mb.writeFlag, s.spc)) =
+    some (some false, .send (some 1) (.plain 20)) := by decide
+
+/-- … the kill notifies it (flag `some true`) and force-kills the mailbox: the hypotheses of
+`send_rechecks_after_wait` / `force_killed_sender_raises` / `woken_sender_does_not_push` occur together … -/
+example : (run? (init exKill) [.sender, .sender, .sender, .sender, .killer 0]).map
+    (fun s => (s.mb.writeFlag, s.mb.killed, s.mb.forceKilled, s.sent.length)) = some (some true, true, true, 1) := by decide
+
+/-- … and its next step raises MailboxKilled without pushing -/
+example : (run? (init exKill) [.sender, .sender, .sender, .sender, .killer 0, .sender]).map
+    (fun s => (s.spc, s.sent.length, s.mb.heap.length)) = some (.exc .mailboxKilled, 1, 1) := by decide
+
+/-- a reader waiting for a message that never comes is blocked, woken by the kill, and raises -/
+example : (run? (init exKill) [.reader 0]).map (fun s => s.mb.subs.map (·.flag)) = some [some false] := by decide
+example : (run? (init exKill) [.reader 0, .killer 0]).map (fun s => s.mb.subs.map (·.flag)) = some [some true] := by decide
+example : (run? (init exKill) [.reader 0, .killer 0, .reader 0]).map (fun s => s.readers.map (·.pc)) =
+    some [.dead .mailboxKilled] := by decide
+
+/-! ## PostOffice level (single-thread processor), for ALL producer scripts, spies and consumers -/
+
+/-- `next()` on any reader of the bus, at any nesting depth of producers pulling from readers: whatever exception is
+raised anywhere below it (a producer script, `saver.save` inside a spy, `saver.close` when a topic is exhausted, an
+assertion of the bus itself) IS the result of that `next()`: nothing else is raised on the way up through the nested
+generators, and nothing that was raised is swallowed (`log` = ghost list of every exception raised) -/
+theorem exception_passes_through (fuel : Nat) (po po' : PostOffice.PO) (g : Nat) (r : PostOffice.Res)
+    (h : PostOffice.readNext fuel po g = (po', r)) :
+    (∀ e, r = .raised e → po'.log = po.log ++ [e]) ∧ ((∀ e, r ≠ .raised e) → po'.log = po.log) := by
+  have := (PostOffice.pull_log fuel).2.2 po g po' r h
+  constructor
+  · intro e he; subst he; exact this
+  · intro hne
+    cases r with
+    | raised e => exact absurd rfl (hne e)
+    | msg v => exact this
+    | stop => exact this
+    | fuel => exact this
+
+/-- `kill_spies` appends exactly the exception it raises -/
+theorem killSpies_log (po po' : PostOffice.PO) (e : Option PostOffice.Exc) (h : po.killSpies = (po', e)) :
+    PostOffice.LogRel po po' e := by
+  unfold PostOffice.PO.killSpies at h
+  split at h <;> (simp only [Prod.mk.injEq] at h; obtain ⟨rfl, rfl⟩ := h; simp [PostOffice.LogRel])
+
+/-- `SingleThreadProcessor.iter()` with any consumer (draining, throwing into the generator, closing it): if it ends
+normally — exhausted or closed — then NO exception was raised anywhere during the whole run.  Contrapositive: any
+failure of a producer, loader or saver at any chunk prevents a normal end; the caller never gets silently truncated data. -/
+theorem normal_end_means_no_failure (fuel : Nat) (g : Nat) (c : PostOffice.Consumer) (k : Nat) :
+    ∀ (po po' : PostOffice.PO) (got got' : List Nat) (out : PostOffice.Outcome),
+    PostOffice.procIter fuel po g c k got = (po', out) → (out = .finished got' ∨ out = .closed got') → po'.log = po.log := by
+  induction k with
+  | zero => intro po po' got got' out h hn; simp [PostOffice.procIter] at h; rcases hn with hn | hn <;> simp [← h.2] at hn
+  | succ k ih =>
+    intro po po' got got' out h hn
+    simp only [PostOffice.procIter] at h
+    split at h
+    · -- the consumer throws or closes
+      rename_i r hstop
+      subst h
+      cases c with
+      | drain => simp at hstop
+      | throwAt n e =>
+        simp only at hstop
+        split at hstop
+        · simp only [Option.some.injEq] at hstop
+          unfold PostOffice.PO.epilogue at hstop
+          split at hstop <;> (simp only [Prod.mk.injEq] at hstop; obtain ⟨_, rfl⟩ := hstop; simp at hn)
+        · simp at hstop
+      | closeAt n =>
+        simp only at hstop
+        split at hstop
+        · simp only [Option.some.injEq] at hstop
+          split at hstop
+          · simp only [Prod.mk.injEq] at hstop; obtain ⟨_, rfl⟩ := hstop; simp at hn
+          · rename_i po1 hk
+            have := killSpies_log po po1 none hk
+            simp only [Prod.mk.injEq] at hstop; obtain ⟨rfl, _⟩ := hstop; exact this
+        · simp at hstop
+    · split at h
+      · rename_i po1 v h1
+        have h1' := (exception_passes_through fuel po po1 g _ h1).2 (by intro e; simp)
+        rw [← h1']; exact ih po1 po' _ got' out h hn
+      · rename_i po1 h1
+        have h1' := (exception_passes_through fuel po po1 g _ h1).2 (by intro e; simp)
+        simp only [Prod.mk.injEq] at h; obtain ⟨rfl, _⟩ := h; exact h1'
+      · rename_i po1 e h1
+        unfold PostOffice.PO.epilogue at h
+        split at h <;> (simp only [Prod.mk.injEq] at h; obtain ⟨_, rfl⟩ := h; simp at hn)
+      · simp only [Prod.mk.injEq] at h; obtain ⟨_, rfl⟩ := h; simp at hn
+
+/-- after the `except Exception: kill_spies(); raise` handler has run WITHOUT raising itself, every spy (saver) is
+closed and the caller gets the original exception.  (Full statement "after a failure every saver is closed" is false:
+`kill_spies` is a plain loop and stops at the first spy whose `kill` raises — see the counterexample below.) -/
+theorem spies_killed_on_failure_partial (po po' : PostOffice.PO) (e : PostOffice.Exc)
+    (h : po.epilogue e = (po', .raised e none)) : ∀ s ∈ po'.allSpies, s.closed = true := by
+  unfold PostOffice.PO.epilogue at h
+  split at h
+  · simp at h
+  · rename_i po1 hk
+    simp only [Prod.mk.injEq] at h; obtain ⟨rfl, _⟩ := h
+    unfold PostOffice.PO.killSpies at hk
+    split at hk
+    · simp at hk
+    · rename_i ts hts
+      simp only [Prod.mk.injEq] at hk; obtain ⟨rfl, _⟩ := hk
+      intro s hs
+      simp only [PostOffice.PO.allSpies, List.mem_flatMap] at hs
+      obtain ⟨t, ht, hst⟩ := hs
+      exact PostOffice.killTopics_closed hts t ht s hst
+
+/-- every saver still open and able to close -/
+def AllSpiesHealthy (po : PostOffice.PO) : Prop := ∀ s ∈ po.allSpies, s.closed = false ∧ s.failClose = false
+
+instance (po : PostOffice.PO) : Decidable (AllSpiesHealthy po) := by unfold AllSpiesHealthy; infer_instance
+
+/-- the caller of `SingleThreadProcessor.iter()` receives the ORIGINAL exception, provided no saver was closed before
+the failure and no `saver.close()` fails.  Full statement (without the hypothesis) is false: D7, next theorem. -/
+theorem original_exception_preserved_partial (po : PostOffice.PO) (e : PostOffice.Exc) (hh : AllSpiesHealthy po) :
+    (po.epilogue e).2 = .raised e none ∧ ∀ s ∈ (po.epilogue e).1.allSpies, s.closed = true := by
+  have hk : (PostOffice.killTopics po.topics).2 = none := by
+    apply PostOffice.killTopics_ok
+    intro t ht s hs
+    exact hh s (by simp only [PostOffice.PO.allSpies, List.mem_flatMap]; exact ⟨t, ht, hs⟩)
+  have he : (po.epilogue e).2 = .raised e none := by
+    unfold PostOffice.PO.epilogue PostOffice.PO.killSpies
+    cases hkt : PostOffice.killTopics po.topics with
+    | mk ts x => rw [hkt] at hk; simp only at hk; subst hk; rfl
+  refine ⟨he, ?_⟩
+  apply spies_killed_on_failure_partial po _ e
+  cases hep : po.epilogue e with
+  | mk p o => rw [hep] at he; simp only at he; subst he; rfl
+
+/-- build a bus from registration calls -/
+def mkBus (ops : List (PostOffice.PO → Except PostOffice.Exc PostOffice.PO)) : PostOffice.PO :=
+  ops.foldl (fun po f => match f po with
+    | .ok p => p
+    | .error _ => po) {}
+
+/-- D7 witness: topic 0 = a source with one chunk and a healthy saver; topic 1 = a plugin reading topic 0 (generator 0)
+whose saver fails in `close` (the final rename); generator 1 is the processor's FINAL reader of topic 1 -/
+def d7Bus : PostOffice.PO := mkBus [
+  fun po => po.registerProducer [.yield] [0] [],
+  fun po => .ok (po.registerSpy 0 {}),
+  fun po => .ok (po.getIter 0 1),
+  fun po => po.registerProducer [.pull 0, .yield, .pull 0] [1] [],
+  fun po => .ok (po.registerSpy 1 { failClose := true, exc := 7 }),
+  fun po => .ok (po.getIter 1 99)]
+
+/-- D7 (open finding): the saver of topic 0 was closed when its topic was exhausted; the saver of topic 1 then fails in
+`close`; `kill_spies` re-closes the closed saver of topic 0, `Saver.close` raises RuntimeError(already closed): the
+caller gets THAT, the injected exception 7 only as `__context__` -/
+theorem original_exception_masked_counterexample :
+    (PostOffice.procIter 50 d7Bus 1 .drain 50 []).2 = .raised .alreadyClosed (some (.inj 7)) := by decide
+
+/-- the same bus with a producer failure (exception 5) after topic 0 was exhausted: masked as well, and the saver of
+topic 1 is left OPEN (so `spies_killed_on_failure` without its hypothesis is false too) -/
+def d7Bus' : PostOffice.PO := mkBus [
+  fun po => po.registerProducer [.yield] [0] [],
+  fun po => .ok (po.registerSpy 0 {}),
+  fun po => .ok (po.getIter 0 1),
+  fun po => po.registerProducer [.pull 0, .yield, .pull 0, .raise 5] [1] [],
+  fun po => .ok (po.registerSpy 1 {}),
+  fun po => .ok (po.getIter 1 99)]
+
+theorem spies_left_open_counterexample :
+    (PostOffice.procIter 50 d7Bus' 1 .drain 50 []).2 = .raised .alreadyClosed (some (.inj 5)) ∧
+    ((PostOffice.procIter 50 d7Bus' 1 .drain 50 []).1.allSpies.map (·.closed)) = [true, false] := by decide
+
+/-- non-vacuity of `original_exception_preserved_partial`: a failure at the second chunk while every saver is open -/
+def okBus : PostOffice.PO := mkBus [
+  fun po => po.registerProducer [.yield, .yield, .yield] [0] [],
+  fun po => .ok (po.registerSpy 0 {}),
+  fun po => .ok (po.getIter 0 1),
+  fun po => po.registerProducer [.pull 0, .yield, .pull 0, .raise 5] [1] [],
+  fun po => .ok (po.registerSpy 1 {}),
+  fun po => .ok (po.getIter 1 99)]
+
+example : (PostOffice.readNext 50 (PostOffice.readNext 50 okBus 1).1 1).2 = .raised (.inj 5) ∧
+    AllSpiesHealthy (PostOffice.readNext 50 (PostOffice.readNext 50 okBus 1).1 1).1 := by decide
+
+example : (PostOffice.procIter 50 okBus 1 .drain 50 []).2 = .raised (.inj 5) none := by decide
 
 end Strax.C06
